@@ -17,6 +17,7 @@ Print Assumptions C06_collapse.
 
 Theorem C06_collapse_len : forall N start nsamps, collapse_len N start nsamps 0 = nsamps /\ collapse_len N start nsamps 1 = N - start.
 Proof. exact collapse_len_spec. Qed.
+Print Assumptions C06_collapse_len.
 
 (** the accumulated sums are the per-channel sums over the selected samples and the divisor is their number *)
 Theorem C06_bandpass : forall fs nch N gulp start nsamps,
@@ -46,10 +47,12 @@ Print Assumptions C06_dedisperse.
 
 Theorem C06_dedisperse_len : forall N start nsamps md, dedisperse_len N start nsamps 0 md = nsamps - md.
 Proof. exact dedisperse_len_spec. Qed.
+Print Assumptions C06_dedisperse_len.
 
 (** the variance/skewness/kurtosis divisor of compute_stats is the number of samples pushed *)
 Theorem C06_stats_divisor : forall N start nsamps, stats_divisor N start nsamps 0 = nsamps /\ stats_divisor N start nsamps 1 = N - start.
 Proof. intros; split; reflexivity. Qed.
+Print Assumptions C06_stats_divisor.
 
 (** changing only the gulp never changes the result *)
 Corollary C06_gulp_irrelevant_collapse : forall fs nch N g1 g2 start nsamps,
@@ -60,6 +63,7 @@ Proof. intros fs nch N g1 g2 start nsamps H1 H2 H3 H4 H5 H6 H7 H8.
   destruct (collapse_spec fs nch N g1 start nsamps H1 H2 H3 H4 H5 H6 H7) as [o1 [E1 S1]].
   destruct (collapse_spec fs nch N g2 start nsamps H1 H2 H3 H4 H5 H6 H8) as [o2 [E2 S2]].
   exists o1, o2. repeat split; try assumption. intros t Ht. rewrite S1, S2 by assumption. reflexivity. Qed.
+Print Assumptions C06_gulp_irrelevant_collapse.
 
 Corollary C06_gulp_irrelevant_dedisperse : forall fs nch N g1 g2 start nsamps md delays,
   1 <= nfiles fs -> 1 <= nch -> total fs = N * nch -> 0 <= start -> 1 <= nsamps -> start + nsamps <= N -> 1 <= g1 -> 1 <= g2 ->
